@@ -212,6 +212,76 @@ AfterProg(kinds, inc, pre, post, cont, fault, where) ==
         ELSE IF f = "I2.INC" THEN nest
         ELSE <<Clean(6), L(<<>>, "INCLUDE", <<"I2", ".", "INC">>), FLT(fault), Clean(7)>>]
 
+(***************************************************************************)
+(* Family `linelen`: the LENGTHS and LINE ENDS of the physical lines.      *)
+(* The line number of a message is the number of physical lines read from  *)
+(* the file so far (MacroProc.FileProc: 1 + the continuation breaks of the *)
+(* logical line) - whatever their lengths and line ends are.  The code     *)
+(* gets this number from ReadLnCont(), which sees fgets() chunks of a      *)
+(* buffer whose free room depends on the text joined so far and on every   *)
+(* earlier line (spec/LineReader.tla).  So a program line here carries the *)
+(* length of each of its physical lines, a file its line-end style and the *)
+(* way it ends; the faulty line stands BEHIND the shaped statement.        *)
+(*   ns        characters in front of the backslash / the line end, per    *)
+(*             physical line (the renderer pads with blanks up to them)    *)
+(*   eol       "lf" | "crlf" for every line of every file of the job       *)
+(*   last      "nl": line end behind the last line, "nonl": none,          *)
+(*             "ctrlz": a lone ^Z behind the last line end (DOS),          *)
+(*             "zonline": ^Z directly behind the text of the last line     *)
+(***************************************************************************)
+LR == INSTANCE LineReader
+ShortLen == 40                                            \* every physical line that is not shaped has this length
+Plain(l) == [l |-> l, ns |-> [k \in 1..(1 + Count(l, CONT)) |-> ShortLen]]
+ShapedStmt(ns) == [l |-> ContLine(Len(ns) - 1), ns |-> ns]          \* a data statement over Len(ns) physical lines
+PhysOf(sl, eol, last) ==
+  LET ps == Flatten([j \in DOMAIN sl |-> [k \in DOMAIN sl[j].ns |-> [n |-> sl[j].ns[k], bs |-> k < Len(sl[j].ns), z |-> FALSE, eol |-> eol]]])
+  IN CASE last = "nonl" -> [ps EXCEPT ![Len(ps)].eol = "none"]
+       [] last = "ctrlz" -> ps \o <<[n |-> 0, bs |-> FALSE, z |-> TRUE, eol |-> "none"]>>
+       [] last = "zonline" -> [ps EXCEPT ![Len(ps)].eol = "none", ![Len(ps)].z = TRUE]
+       [] OTHER -> ps
+\* the lengths the reader distinguishes are derived from its buffer constants: with t characters joined so far
+\* (8 continued lines, none of them long) a physical line of LR!Fit bytes is the longest that arrives in one chunk;
+\* d = 0 fits exactly, 1: the LF (CR | LF) is a chunk of its own, 2..: text in the next chunk, grow..: more chunks
+JoinedPrefix(t) == [i \in 1..8 |-> IF i < 8 THEN t \div 8 ELSE t - 7 * (t \div 8)]
+LineShape(kind, t, d, eol) ==
+  LET fit == LR!Fit(LR!RealBuf, t, IF eol = "crlf" THEN 2 ELSE 1)
+  IN CASE kind = "alone" -> <<fit + d>>                            \* one long line
+       [] kind = "first" -> <<fit + d - 1, ShortLen>>              \* long first part: the backslash is the byte in front of the line end
+       [] kind = "behind" -> JoinedPrefix(t) \o <<fit + d>>        \* the part behind t joined characters
+       [] OTHER -> [i \in 1..(t + 1) |-> ShortLen]                 \* "short": t continuation breaks, nothing long
+\* where = "main": statement and faulty line in the main file; "inc": in I1.INC, a second faulty line behind the
+\* INCLUDE; "both": also the same statement behind the INCLUDE in the main file (the buffer has grown by then).
+\* twice: the statement and the faulty line a second time in the same file; tailclean: a clean line ends the file
+\* (else the faulty line is the last line).
+LineLenProg(ns, where, fault, tailclean, twice, eol, last) ==
+  LET stmt == ShapedStmt(ns)
+      flt == Plain(FLT(fault))
+      body == <<Plain(Clean(1)), stmt, flt>> \o (IF twice THEN <<stmt, flt>> ELSE <<>>) \o (IF tailclean THEN <<Plain(Clean(8))>> ELSE <<>>)
+      outer == <<Plain(Clean(6)), Plain(L(<<>>, "INCLUDE", <<"I1", ".", "INC">>))>> \o (IF where = "both" THEN <<stmt>> ELSE <<>>)
+               \o <<flt>> \o (IF tailclean THEN <<Plain(Clean(7))>> ELSE <<>>)
+      sl == [f \in (IF where = "main" THEN {"a.asm"} ELSE {"a.asm", "I1.INC"}) |-> IF where = "main" \/ f = "I1.INC" THEN body ELSE outer]
+  IN [files |-> [f \in DOMAIN sl |-> [j \in DOMAIN sl[f] |-> sl[f][j].l]],
+      phys |-> [f \in DOMAIN sl |-> PhysOf(sl[f], eol, last)]]
+\* capacities the line buffer can have when a file of the job is opened (history: other files, the first pass)
+LineCaps(phys) == LR!Caps(LR!RealBuf, 4 * LR!RealBuf.cap)
+\* MacroProc.FileProc takes 1 + Count(raw, CONT) as what ReadLnCont() returns and the end-of-file read as one more
+\* line: that is what the reader of LineReader delivers for every capacity (unless CrSplitFromLf breaks a statement)
+ReaderAgrees(files, phys) ==
+  \A f \in DOMAIN files : \A B \in LineCaps(phys) :
+     LET rs == LR!ReadFile(phys[f], B)
+         src == FileSrc(files[f])
+     IN /\ LR!WellShaped(phys[f])
+        /\ LR!CountsPhysical(phys[f], rs)
+        /\ LR!NoSplitDev(rs) =>
+             /\ Len(rs) \in {Len(files[f]), Len(files[f]) + 1} /\ rs[Len(rs)].last /\ LR!Brief(rs) = LR!DeclReads(phys[f])
+             /\ \A j \in DOMAIN files[f] : rs[j].count = 1 + Count(files[f][j], CONT) /\ rs[j].lineZ = src.phys[j]
+             /\ \A j \in DOMAIN rs : j > Len(files[f]) => (rs[j].count = 1 /\ rs[j].len = 0)
+\* lines whose statement the as-coded reader can break (CrSplitFromLf, for some capacity): the manual allows no
+\* composed line of that length (256), what is said about these lines is not judged
+UnjudgedLines(phys) ==
+  UNION {{[file |-> f, line |-> k] : k \in UNION {LR!DevLines(phys[f], LR!ReadFile(phys[f], B)) : B \in LineCaps(phys)}} : f \in DOMAIN phys}
+ChunkedIn(phys) == \E f \in DOMAIN phys : LR!Chunked(LR!ReadFile(phys[f], LR!RealBuf))
+
 \* EXPECT blocks: announced numbers A (sequence), occurring faults O (sequence of fault ops)
 ExpectProg(A, O, closed, nested) ==
   [f \in {"a.asm"} |->
